@@ -272,7 +272,21 @@ func c17Rules(p *core.Prog, r *core.Run) {
 				}) {
 					bad = "a resolution result"
 				}
-				r.Check("C17.SNI", "targets:host-provenance", bad == "", p.InstrPos(st), "the TLS host derives only from the caller's address string (split/trim) or the transport's URL host %s: %s", bad, short(v))
+				// the host is cut off the address by net.SplitHostPort (which knows
+				// bracketed IPv6 literals and bare ones), nothing home-made
+				v.Walk(func(e *core.Expr) bool {
+					if e.Op == "call" && e.Name != "" {
+						switch e.Name {
+						case "net.SplitHostPort", "strings.TrimSpace", "strings.Split", "strings.ToLower", "(context.Context).Value", "dyn":
+						default:
+							if bad == "" && !strings.HasPrefix(e.Name, "(") {
+								bad = "through " + e.Name
+							}
+						}
+					}
+					return true
+				})
+				r.Check("C17.SNI", "targets:host-provenance", bad == "", p.InstrPos(st), "the TLS host derives only from the caller's address string (net.SplitHostPort, trim) or the transport's URL host %s: %s", bad, short(v))
 			}
 		}
 	}
